@@ -14,6 +14,8 @@ Extension (attack.go processAttack, NewMetrics):
                                               prefix of events (signals, drains, failed Encode): scrape = sums over the output
   pump_without_metrics                        pm == nil observes nothing
   instances_independent / instance_shows_own_results   Metrics instances do not share tables
+  register_keeps_registered / rejected_register_changes_nothing / register_rejected_iff / register_fresh / register_whole
+                                              Register never removes a registered collector; a rejected call changes nothing
 -/
 import Vegeta.Model.Prom
 import Vegeta.Proofs.F64Order
@@ -680,5 +682,66 @@ theorem instance_shows_own_results (ops : List WOp) (j : Nat) :
 
 example : (worldRun [.new, .new, .observe 0 ⟨[71], [97], 200, 1, 2, 5, []⟩, .observe 1 ⟨[71], [98], 200, 7, 2, 5, []⟩])[1]? =
     some (observeAll State.init [⟨[71], [98], 200, 7, 2, 5, []⟩]) := by decide +kernel
+
+/-! ### registering several instances -/
+
+theorem aux_registerFrom_keeps (i : Nat) (cs : List Nat) : ∀ (reg : Registry) (e : Nat × Nat), e ∈ reg → e ∈ (registerFrom i cs reg).1 := by
+  induction cs with
+  | nil => intro reg e h; exact h
+  | cons c t ih =>
+    intro reg e h
+    simp only [registerFrom]
+    split
+    · exact h
+    · exact ih _ e (by simp [h])
+
+/-- **`Register` never removes anything from a registry**: whatever it returns, every collector that was
+registered before the call still is — in particular a rejected registration of a second instance (or of the
+same instance again) leaves the first instance's collectors, and so its exported series, in place. -/
+theorem register_keeps_registered (i : Nat) (reg : Registry) (e : Nat × Nat) (h : e ∈ reg) : e ∈ (register i reg).1 :=
+  aux_registerFrom_keeps i _ reg e h
+
+/-- **A rejected `Register` changes nothing** on a registry in the state `Register` leaves behind (empty, or
+holding all four collectors): the very first collector is refused and the registry is what it was. -/
+theorem rejected_register_changes_nothing (i : Nat) (reg : Registry) (hw : Whole reg)
+    (hrej : (register i reg).2 = false) : (register i reg).1 = reg := by
+  rcases hw with h | h
+  · subst h; simp [register, registerFrom] at hrej
+  · obtain ⟨j, hj⟩ := h 0 (by omega)
+    have : reg.any (fun e => e.2 == 0) = true := List.any_eq_true.mpr ⟨(j, 0), hj, by simp⟩
+    simp [register, registerFrom, this]
+
+/-- A registration is rejected exactly when the registry already holds collectors (of any instance). -/
+theorem register_rejected_iff (i : Nat) (reg : Registry) (hw : Whole reg) : (register i reg).2 = false ↔ reg ≠ [] := by
+  rcases hw with h | h
+  · subst h; simp [register, registerFrom]
+  · obtain ⟨j, hj⟩ := h 0 (by omega)
+    have hany : reg.any (fun e => e.2 == 0) = true := List.any_eq_true.mpr ⟨(j, 0), hj, by simp⟩
+    constructor
+    · intro _ hnil; subst hnil; simp at hj
+    · intro _; simp [register, registerFrom, hany]
+
+/-- On a fresh registry `Register` succeeds and registers the four collectors of that instance; the result
+is again whole, and stays whole under every further `Register` call. -/
+theorem register_fresh (i : Nat) : register i [] = ([(i, 0), (i, 1), (i, 2), (i, 3)], true) := by simp [register, registerFrom]
+
+theorem register_whole (i : Nat) (reg : Registry) (hw : Whole reg) : Whole (register i reg).1 := by
+  by_cases hnil : reg = []
+  · subst hnil
+    rw [register_fresh]
+    right
+    intro c hc
+    refine ⟨i, ?_⟩
+    have : c = 0 ∨ c = 1 ∨ c = 2 ∨ c = 3 := by omega
+    rcases this with rfl | rfl | rfl | rfl <;> simp
+  · have hrej := (register_rejected_iff i reg hw).mpr hnil
+    rw [rejected_register_changes_nothing i reg hw hrej]; exact hw
+
+example : Whole [(0, 0), (0, 1), (0, 2), (0, 3)] ∧ (register 1 [(0, 0), (0, 1), (0, 2), (0, 3)]).2 = false := by
+  refine ⟨Or.inr ?_, by decide⟩
+  intro c hc
+  refine ⟨0, ?_⟩
+  have : c = 0 ∨ c = 1 ∨ c = 2 ∨ c = 3 := by omega
+  rcases this with rfl | rfl | rfl | rfl <;> simp
 
 end Vegeta.Props.C20
